@@ -368,7 +368,7 @@ def _sym(e: ast.AST, env: Env) -> Poly:
                 items = e.args
             if items is not None and not any(isinstance(i, ast.Starred) for i in items):
                 return _atom("%s{%s}" % (fname, ", ".join(sorted(str(_sym(i, env)) for i in items))))
-        f = _sym(e.func, env) if not isinstance(e.func, ast.Name) or e.func.id in env.defs else _atom(e.func.id)
+        f = _sym(e.func, env) if not isinstance(e.func, ast.Name) or e.func.id in env.defs or e.func.id in env.values else _atom(e.func.id)
         args = []
         for a in e.args:
             if isinstance(a, ast.Starred):
